@@ -165,7 +165,9 @@ def caller_loc(extra_files=()):
                 loc = (q, f.f_lineno, f.f_code.co_qualname)
             funcs.append((q, f.f_code.co_qualname))
         f = f.f_back
-    return loc or ('?', 0, '?'), funcs
+    if loc is None:
+        return ('?', 0, '?', ()), funcs
+    return loc + (tuple(q for _, q in funcs),), funcs
 
 
 class Runtime:
